@@ -51,7 +51,7 @@ def plan(tier, seed):
     for fam in fams:
         for impl in ('c', 'py'):
             specs.append(dict(label='%s-%s' % (fam, impl), family=fam,
-                              impl=impl, histories=10 if q else 800,
+                              impl=impl, histories=30 if q else 800,
                               seed=seed, tier=tier, variant='mon',
                               timeout=900 if q else 7200))
     for fam in (['OO', 'II', 'fs'] if q else fams):
@@ -264,7 +264,7 @@ def run_history(fam, kind, impl, rng, rec, h):
                     aim = 'cursor-leaf-unlinked'
                     ok = True
                     victims = list(leaf)
-                    if w.height >= 3 and rng.random() < .4:
+                    if w.height >= 3 and rng.random() < .6:
                         # the whole bottom-level node the cursor's leaf
                         # hangs under (an interior node goes away)
                         li_ = w.leaf_keys.index(leaf)
@@ -294,16 +294,25 @@ def run_history(fam, kind, impl, rng, rec, h):
                         ok = ok and ls.step(
                             'setitem' if is_mapping else 'add',
                             (x, ls.g._val()) if is_mapping else (x,))
-                else:
+                elif rng.random() < .25:
                     aim = 'iterator-outlived-clear'
                     ok = ls.step('clear', ())
+                else:
+                    ok = ls.step()
             except TypeError:
                 ok = True
                 aim = None
             if aim:
                 rec.ev('%s:%s' % (impl, aim))
+                if conn is not None:
+                    rec.ev('%s:stored:%s' % (impl, aim))
                 last_aim = aim
                 log.append(('mutate', aim))
+                if conn is not None and rng.random() < .4:
+                    # let the cache have whatever the mutation did not
+                    # register
+                    conn.cache.minimize()
+                    rec.ev(impl + ':stored:sweep')
             if not ok:
                 return
         else:
